@@ -15,7 +15,8 @@ RULE = ("random walks (<= 60 steps quick / <= 240 thorough) over a pool of <= 6 
         "curves, toy curves with 2-torsion (K1) and named curves; 23 public operations (reads, scale, to_affine, "
         "from_affine, -, double, +, *, mul_add, ==, pickle round trip, copy.copy, key construction, key.precompute lazy/eager, "
         "to_string x4, verify, sign, key ==); exhaustive sequences of length <= 3 over 8 operations on the prime-order toy "
-        "curve p=11; distinct = distinct history line; non-trivial = the history mutates hidden state at least once")
+        "curve p=11; object turnover (keys / generator-flagged points created, used and dropped in a loop so that addresses are "
+        "re-used); distinct = distinct history line; non-trivial = the history mutates hidden state at least once")
 EXTRA_PROPS = ["C19g"]   # RepIndep discharged for Model/Curve.lean from C06/C07 (Proofs/GroupInterface.lean)
 ASSUMPTIONS = [
     "an unpickled INFINITY is a distinct Point(None, None, None) object: pickling the singleton is outside the domain",
@@ -993,6 +994,64 @@ def shrink(hist, budget=400):
     return cur
 
 
+# ------------------------------------------------------------------------------------------------ object turnover
+# The walks keep every object they created alive (the pool), so an implementation that remembers state *about* an object
+# outside the object (a module-level table keyed by id(), a cache of the last operand, ...) is not exercised by them.  Here
+# objects are created, used and dropped in a loop, so that CPython re-uses their addresses: the value of the next object
+# must still not depend on what was done with the dead ones.  In the model dropping a reference is not an operation (the
+# heap of `Model/PointObj.lean` only grows and `history_independent` holds for every history of the live objects).
+def turnover_specs(ctx):
+    out = []
+    for (p, a, b, g, n) in TOY_PRIME[:3]:
+        for kind in ("key-lazy", "key-eager", "point"):
+            out.append({"curve": [p, a, b], "G": list(g), "n": n, "count": 40 if ctx.quick else 400, "kind": kind})
+    return out
+
+
+def turnover_fails(spec):
+    """None, or the first observation that differs from the value the dropped-and-recreated object must have"""
+    import gc
+    from ecdsa import ellipticcurve as E, curves
+    from ecdsa.keys import VerifyingKey
+    p, a, b = spec["curve"]
+    cv = (p, a % p, b % p)
+    G, n = tuple(spec["G"]), spec["n"]
+    fp = E.CurveFp(p, a, b, 1)
+    gen = E.PointJacobi(fp, G[0], G[1], 1, n, generator=True)
+    cobj = curves.Curve("turnover", fp, gen, (1, 3, 9999, p))
+    l = (len("%x" % p) + 1) // 2
+    for i in range(spec["count"]):
+        k = 1 + (7 * i + 3) % (n - 1)
+        Q = R.mul(cv, G, k)
+        if Q is None:
+            continue
+        try:
+            if spec["kind"] == "point":
+                obj = E.PointJacobi(fp, Q[0], Q[1], 1, n, generator=True)
+                m = 2 + i % 5
+                got = obj * m
+                want = R.mul(cv, Q, m)
+                gotv = None if got == E.INFINITY else (int(got.x()), int(got.y()))
+                if gotv != want:
+                    return {"step": i, "object": "PointJacobi(%d,%d) generator=True" % Q, "op": "* %d" % m, "got": str(gotv), "want": str(want)}
+                del obj, got
+            else:
+                vk = VerifyingKey.from_public_point(E.Point(fp, Q[0], Q[1], n), cobj, validate_point=False)
+                vk.precompute(lazy=(spec["kind"] == "key-lazy"))
+                got = vk.to_string()
+                want = Q[0].to_bytes(l, "big") + Q[1].to_bytes(l, "big")
+                pt = (int(vk.pubkey.point.x()), int(vk.pubkey.point.y()))
+                if got != want or pt != Q:
+                    return {"step": i, "object": "VerifyingKey(%d,%d)" % Q, "op": "precompute; to_string / pubkey.point",
+                            "got": hx(got) + " " + str(pt), "want": hx(want) + " " + str(Q)}
+                del vk
+        except Exception as e:                                    # noqa: BLE001 - any exception is a departure here
+            return {"step": i, "object": str(Q), "op": spec["kind"], "got": type(e).__name__ + ": " + str(e)[:80], "want": "no exception"}
+        if i % 3 == 0:
+            gc.collect()
+    return None
+
+
 # ------------------------------------------------------------------------------------------------ stages
 def correspond(ctx):
     c = Corr(ctx, "object-history")
@@ -1040,10 +1099,21 @@ def search(ctx):
         ctx.violation(rec)
         if nviol >= 3:
             break
+    for spec in turnover_specs(ctx):
+        n += 1
+        bad = turnover_fails(spec)
+        ctx.hist("search", "turnover-" + spec["kind"], spec["count"])
+        if bad is not None and nviol < 3:
+            small = dict(spec, count=bad["step"] + 1)
+            ctx.violation({"input": {"turnover": small}, "observed": bad,
+                           "expected": "an object built after others were used and dropped has the value it was built with"})
+            nviol += 1
     ctx.hist("search", "histories", n)
     ctx.hist("search", "steps", sum(w.steps for (_, w, _) in walks))
     ctx.cov["search_evaluations"] = n
 
 
 def replay(rec):
+    if "turnover" in rec["input"]:
+        return turnover_fails(rec["input"]["turnover"]) is not None
     return still_fails(rec["input"])
